@@ -28,13 +28,50 @@ pub fn run_one(pipe: &Pipe) -> PullOutcome {
     let nl = n_leaves(pipe);
     // reference
     let rc = Arc::new(Counters::default());
-    let want: Vec<i64> = build_ref(pipe, &rc).collect();
+    QUIET_PANICS.with(|q| q.set(true));
+    let wr = catch_unwind(AssertUnwindSafe(|| build_ref(pipe, &rc).collect::<Vec<i64>>()));
+    QUIET_PANICS.with(|q| q.set(false));
+    let want: Vec<i64> = match wr {
+        Ok(w) => w,
+        Err(_) => {
+            let (loc, msg) = take_last_panic().unwrap_or_default();
+            return PullOutcome {
+                pipe: pipe.clone(),
+                got: vec![],
+                want: vec![],
+                trace: vec![],
+                hash: 0,
+                events: 0,
+                verdict: Some(("HARNESS", "reference-evaluator-panicked", format!("{} at {} for {}", msg, loc, pipe.show()))),
+                got_calls: vec![],
+                want_calls: vec![],
+            };
+        },
+    };
     let want_calls: Vec<usize> = {
         let l = rc.leaves.lock().unwrap();
         (0..nl).map(|i| l.get(i).map(|c| c.load(Ordering::SeqCst)).unwrap_or(0)).collect()
     };
-    let want_inner: Vec<usize> = rc.inners.lock().unwrap().iter().map(|c| c.load(Ordering::SeqCst)).collect();
+    // summed: a source value that is subscribed several times is built once here but once per
+    // use in the reference, so only the totals are comparable
+    let want_inner: usize = rc.inners.lock().unwrap().iter().map(|c| c.load(Ordering::SeqCst)).sum();
     let want_closures = rc.closures.load(Ordering::SeqCst);
+    // nested repetition can make a pipeline multiply its work; keep the runs small (the budget of
+    // the instrumented iterators stays far above this, so that a pipeline that fails to stop is
+    // still told apart from one that is merely long)
+    if want_calls.iter().sum::<usize>() + want_inner > 4_000 {
+        return PullOutcome {
+            pipe: pipe.clone(),
+            got: vec![],
+            want: vec![],
+            trace: vec![],
+            hash: 0,
+            events: 0,
+            verdict: None,
+            got_calls: vec![],
+            want_calls: vec![],
+        };
+    }
     // the real thing
     let cc = Arc::new(Counters::default());
     QUIET_PANICS.with(|q| q.set(true));
@@ -44,7 +81,7 @@ pub fn run_one(pipe: &Pipe) -> PullOutcome {
         let l = cc.leaves.lock().unwrap();
         (0..nl).map(|i| l.get(i).map(|c| c.load(Ordering::SeqCst)).unwrap_or(0)).collect()
     };
-    let got_inner: Vec<usize> = cc.inners.lock().unwrap().iter().map(|c| c.load(Ordering::SeqCst)).collect();
+    let got_inner: usize = cc.inners.lock().unwrap().iter().map(|c| c.load(Ordering::SeqCst)).sum();
     let got_closures = cc.closures.load(Ordering::SeqCst);
     let mut out = PullOutcome {
         pipe: pipe.clone(),
@@ -186,6 +223,12 @@ pub fn run(o: &Opts, rep: &mut Report) {
                 let mut i = t as u64;
                 while i < total {
                     let pipe = make_pipe(seed, i);
+                    let names = pipe_stage_names(&pipe);
+                    if prop == "C13" && !names.iter().any(|n| n.starts_with("same source value")) {
+                        // C13 looks only at pipelines in which one source value is subscribed repeatedly
+                        i += nthreads as u64;
+                        continue;
+                    }
                     let out = run_one(&pipe);
                     let id = format!("E2:{}:{}:{}", prop, seed, i);
                     rep.evaluations += 1;
@@ -199,7 +242,7 @@ pub fn run(o: &Opts, rep: &mut Report) {
                         rep.nontrivial_cases += 1;
                         rep.nontrivial.insert(out.hash);
                     }
-                    for st in pipe_stage_names(&pipe) {
+                    for st in names {
                         rep.bump(&format!("stage {}", st), 1);
                     }
                     if out.want_calls.iter().zip(pipe_unbounded(&pipe)).any(|(_, u)| u) {
@@ -211,8 +254,12 @@ pub fn run(o: &Opts, rep: &mut Report) {
                     if let Some((p, kind, detail)) = &out.verdict {
                         if *p == "HARNESS" {
                             rep.harness_faults.push(format!("{} [{}]", detail, id));
-                        } else if *p == prop || (prop == "C06" && *p == "C06") {
-                            let sig = format!("pipeline/{}", kind);
+                        } else if *p == prop || (prop == "C13" && *p == "C06") {
+                            let sig = if prop == "C13" {
+                                format!("pipeline/resubscribed-source-differs-from-fresh-one({})", kind)
+                            } else {
+                                format!("pipeline/{}", kind)
+                            };
                             if let Some(k) = known.iter().find(|k| k.signature == sig && k.property == prop) {
                                 let e = rep.known_hits.entry(sig).or_insert((0, k.text.clone()));
                                 e.0 += 1;
@@ -252,6 +299,10 @@ fn pipe_stage_names(p: &Pipe) -> Vec<&'static str> {
                 v.push("concat");
                 q.iter().for_each(|x| walk(x, v));
             },
+            Src0::Repeat(q, _) => {
+                v.push("same source value subscribed repeatedly (concat)");
+                walk(q, v);
+            },
         }
         for s in &p.stages {
             match s {
@@ -265,6 +316,10 @@ fn pipe_stage_names(p: &Pipe) -> Vec<&'static str> {
                     q.iter().for_each(|x| walk(x, v));
                 },
                 Stage::FlatMap { .. } => v.push("map+flatten"),
+                Stage::FlatMapShared(q) => {
+                    v.push("same source value subscribed repeatedly (flatten)");
+                    walk(q, v);
+                },
             }
         }
     }
